@@ -14,10 +14,24 @@
    the model keeps what enter_file stores).
    Parse errors: ONE diagnostic of class Parse in the current file at the parser's error position (pe_line, pe_col):
    the offending token for "expected ..." errors, the end of input for a missing terminator, and for a token error the
-   position recorded by the parser (Text/ParseModel.v: tokerr_err / the statement start) — C12_diag_parse. *)
+   position recorded by the parser (Text/ParseModel.v: tokerr_err / the statement start) — C12_diag_parse.
+
+   END TO END (C12_diag_final*, proofs in Asm/CtxDiagFinal.v), over the final diagnostic list of the whole pipeline model
+   (CtxModel.pipeline_gen = what the C06 / C12 streams extract: Context::assemble of the root with all includes, closing the
+   last region, finalize; both build profiles, every project `fs`, root name, root text, include fuel):
+   opened fs root text path data : data is the text assembled under the name `path` - the root, or the target of an .include
+                      statement (name resolved against the includer's path, found in fs) of an opened file; every file the run
+                      enters is in this set;
+   pos_src .. F L C : (L, C) = (e_line, e_col) of a statement element of the parse of a file opened as F;
+   diag_src .. d    : d is at a pos_src position under that file's name, or d is the Parse diagnostic of an opened file at the
+                      parser's error position;
+   diag_pos .. d    : the same with the position spelled out as PosSpec.pos_of of the file text before the byte offset at which
+                      the statement's first token starts.
+   The model has no position-less diagnostic: a close error is reported by the status only (C12_diag_close_error_silent), and
+   finalize reports through the re-scheduled statements, which store file, line and column. *)
 From Coq Require Import ZArith NArith List String.
-From Trion Require Import Text.Types Asm.CtxModel Asm.CtxDiagProofs.
-From Trion Require Text.ParseModel.
+From Trion Require Import Text.Types Asm.CtxModel Asm.CtxDiagProofs Asm.CtxDiagFinal.
+From Trion Require Text.ParseModel Text.ParseProofs Text.TokenModel Text.PosSpec.
 Import ListNotations.
 Open Scope N_scope.
 
@@ -57,6 +71,40 @@ Theorem C12_diag_file_name_kept : forall dbg fs fuel,
   (forall st data path r st', assemble dbg fs fuel st data path = Ret r st' -> curr_name st' = curr_name st).
 Proof. exact file_name_kept. Qed.
 
+(* ---------------------------------------------------------------------------------------------- *)
+(* END TO END.  For every project, root, text, build profile and include fuel: if the pipeline ends (no matter with which
+   status), EVERY diagnostic of its final list is at a statement element of a file of the project, under the path the file was
+   opened with, or is the parse error of such a file at the parser's error position.  (With insufficient fuel the outcome is
+   POutOfFuel and there is no list; C06_never_panics excludes PPanic.) *)
+Theorem C12_diag_final : forall fs root text dbg fuel s diags regions,
+  pipeline_gen dbg fs fuel root text = Done s diags regions -> Forall (diag_src fs root text) diags.
+Proof. exact diag_final. Qed.
+
+(* the position of a statement element is the position of a token of its file (the first of the element's chunk: C12_element_pos),
+   and that is pos_of (the file text before the token's byte offset) *)
+Theorem C12_diag_stmt_pos_of : forall data items tail el, parse_source data = Parsed items tail -> In (ParseModel.IOk el) items ->
+  exists toks tk off, TokenModel.tokens_offsets data = TokenModel.Ok toks /\ In (inl tk, off) toks /\
+    e_line el = t_line tk /\ e_col el = t_col tk /\ (e_line el, e_col el) = PosSpec.pos_of (firstn off data).
+Proof. exact stmt_pos_of. Qed.
+
+(* the items parse_source hands to the Context are a parser run over exactly the tokenizer's items of that text *)
+Theorem C12_diag_parse_source_tokens : forall data items tail, parse_source data = Parsed items tail ->
+  exists toks, TokenModel.tokens_offsets data = TokenModel.Ok toks /\ ParseProofs.run_spec (map fst toks) items.
+Proof. exact parse_source_tokens. Qed.
+
+(* ... hence: every diagnostic of the final list is at pos_of (text of an opened file before a token of that file), or is
+   that file's parse error *)
+Theorem C12_diag_final_pos : forall fs root text dbg fuel s diags regions,
+  pipeline_gen dbg fs fuel root text = Done s diags regions -> Forall (diag_pos fs root text) diags.
+Proof. exact diag_final_pos. Qed.
+
+(* no position-less diagnostics: when closing the last region fails, the pipeline ends with status CloseError and the error
+   list Context::assemble left *)
+Theorem C12_diag_close_error_silent : forall dbg fs fuel root text st1 r st2 e,
+  assemble dbg fs fuel init_state text root = Ret r st1 -> close_segment dbg st1 = Ret (inr e) st2 ->
+  exists st, pipeline_state dbg fs fuel root text = Ret CloseError st /\ errors st = errors st1.
+Proof. exact close_error_no_diag. Qed.
+
 Open Scope string_scope.
 (* non-vacuity, whole pipeline (tokenizer, parser, Context, finalize): (file, line, column) of every diagnostic.
    1: `NOP R0` (line 2, col 3) and the unknown directive (line 3, col 14);  2: i.asm reports `.du8 300` at (2, 4) - at
@@ -70,3 +118,10 @@ Theorem C12_diag_examples :
   diag_positions (fun _ => None) "p.asm" ".addr 256;
   NOP; + ;" = Some [([112; 46; 97; 115; 109], 2, 8)].
 Proof. vm_compute. repeat split; reflexivity. Qed.
+
+(* the two-file project above: each diagnostic (file, line, column) next to the element positions of THAT file's parse:
+   i.asm has elements at (1,1) (2,4), p.asm at (1,1) (1,12) (2,2) *)
+Theorem C12_diag_final_examples :
+  ex_positions = Some [([105; 46; 97; 115; 109], 2, 4, [(1, 1); (2, 4)]); ([105; 46; 97; 115; 109], 2, 4, [(1, 1); (2, 4)]);
+                       ([112; 46; 97; 115; 109], 2, 2, [(1, 1); (1, 12); (2, 2)])]%N.
+Proof. vm_compute. reflexivity. Qed.
